@@ -296,6 +296,12 @@ def setVar (env : Env) (k : Bytes) (v : Val) (line : Nat) : Res Env :=
 /-- the value of a `@for` condition (`none` = absent = true) -/
 def condTruth (r : Res Val) : Res Bool := r.bind fun v => .ok (isTruthy v)
 
+/-- the truth of a `@for` condition, given the expression evaluator (absent = true) -/
+def loopCond (ev : Ctx → Env → Expr → Res Val) (c : Ctx) (env : Env) (cnd : Option Expr) : Res Bool :=
+  match cnd with
+  | none => .ok true
+  | some ce => condTruth (ev c env ce)
+
 /-- the evaluator's functions at one fuel level (what a function body may call) -/
 structure Callees where
   expr : Ctx → Env → Expr → Res Val
@@ -324,9 +330,7 @@ def stmtBody (k : Callees) (c : Ctx) (env : Env) (s : Stmt) : Res (Out × Env) :
     (match init with
       | none => Res.ok env.push
       | some i => (k.stmt c env.push i).bind fun r => .ok r.2).bind fun env1 =>
-    (match cnd with
-      | none => Res.ok true
-      | some ce => condTruth (k.expr c env1 ce)).bind fun entry =>
+    (loopCond k.expr c env1 cnd).bind fun entry =>
     if entry then (k.forL c env1 t init cnd post body []).bind fun txt => .ok ({ text := txt }, env)
     else
       match alt with
@@ -414,9 +418,7 @@ def progBody (k : Callees) (c : Ctx) (env : Env) (ss : List Stmt) (acc : Bytes) 
 /-- the `for { … }` of `evalForStmt` -/
 def forBody (k : Callees) (c : Ctx) (env : Env) (t : Token) (init : Option Stmt) (cnd : Option Expr) (post : Option Stmt)
     (body : List Stmt) (acc : Bytes) : Res Bytes :=
-  (match cnd with
-    | none => Res.ok true
-    | some ce => condTruth (k.expr c env ce)).bind fun go =>
+  (loopCond k.expr c env cnd).bind fun go =>
   if !go then .ok acc
   else
     (k.block c env body).bind fun r =>
